@@ -46,6 +46,8 @@
 //!   matcher/half-coordinate-pair-accepted   exactly one field of a coordinate pair under a map-matching plugin is not
 //!                                     answered with an error response
 //!
+//! The command-line entry (`command_line_runner`, `CliArgs`): harness/src/c06/cli.rs (case lines `cli …`, oracle keys `cli/*`).
+//!
 //! Which checks catch which seeded changes (quick tier):
 //!   C06_flatten_not_all_arrays         C06 + C12: corpus_mixed_state / user-defined split plugin (correspondence + itemwise oracle)
 //!   C12_yens_spur_count_underflow      C12: corpus_ksp_input_classes + the k-shortest-paths fixtures (yens, grid+yens,
